@@ -12,6 +12,8 @@ import Mathlib.Algebra.Order.Field.Rat
     assumed SLOS leaf distribution for that photon count
   * `{"op":"dtype","dets":[…]}`, `{"op":"heralds","heralds":[[k,v],…],"dets":[…]}`
   * `{"op":"sim","m":m|null,"dist":[[[…],q],…],"dets":[…],"minph":f|null,"minp":q}`
+  * `{"op":"sample","state":[…],"dets":[…],"minp":q,"fixed":b}` — law of `simulate_detectors_sample`
+    (`fixed:false` = the pinned tree, which raises on an unset detector in a mixed list)
   A detector is `null`, `{"w":w|null,"max":k|null}` or `{"bs":l,"r":q}`.
 -/
 
@@ -97,6 +99,15 @@ def handleReq (j : Json) : Except String Json := do
     let a ← simulateChecked minP m dist ds mp
     return Json.mkObj [("type", typeStr (detectionType ds)), ("dist", sdistToJson a.1),
       ("perf", ratToJson a.2)]
+  else if op == "sample" then
+    let minP ← ratOfJson (← j.getObjVal? "minp")
+    let ds ← parseDets (← j.getObjVal? "dets")
+    let st ← natList (← j.getObjVal? "state")
+    let fixed ← match j.getObjVal? "fixed" with
+      | .ok (.bool b) => pure b
+      | _ => throw "missing field fixed"
+    let r ← sampleLaw fixed minP ds st
+    return Json.mkObj [("type", typeStr (detectionType ds)), ("dist", sdistToJson r)]
   else
     throw s!"unknown op {op}"
 
